@@ -37,6 +37,7 @@ MUTATION-RESULTS-PLACEHOLDER
 
 from __future__ import annotations
 
+import functools
 import json
 import os
 import shutil
@@ -111,6 +112,7 @@ SPECS = {
 
 _BASE: dict = {}  # spec -> canonical baseline
 _SITES: dict = {}  # spec -> [(seq, n)] menu sites of the n_jobs=4 default run
+_LABELS: dict = {}  # spec -> {seq: job-function name of the call site}
 _REAL: dict = {}  # (spec, item json) -> result dict computed by the real-backend child
 
 
@@ -174,6 +176,10 @@ def menu_sites(schedule):
     return [(r.seq, r.n) for r in schedule.trace if not r.nested and r.has_menu and r.n >= 2]
 
 
+def site_labels(schedule):
+    return {r.seq: r.label for r in schedule.trace if not r.nested}
+
+
 # ----------------------------- child interpreters -----------------------------
 
 _CHILD_CODE = "from mc.checks import c20; c20.child_main()"
@@ -191,6 +197,7 @@ def child_main():
         made = []
         orig = M._make_pmappings
 
+        @functools.wraps(orig)  # make_pmappings asserts on inspect.signature(_make_pmappings)
         def counting(**kw):
             made[-1] = True
             return orig(**kw)
@@ -271,13 +278,17 @@ def run_real_item(item):
         sch = SC.Schedule()
         with SC.real_backend(sch, n_jobs, step=0):
             real = run_mapper(name)
-        ooo = sum(1 for r in sch.trace if r.completed is not None and r.completed != sorted(r.completed))
-        return {"real": real, "sites": len(sch.trace), "out_of_order_sites": ooo}
+        orders = {str(r.seq): list(r.order) for r in sch.trace
+                  if r.seq is not None and r.return_as == "generator_unordered" and r.n >= 2}
+        ooo = sum(1 for o in orders.values() if o != sorted(o))
+        return {"real": real, "sites": len(sch.trace), "out_of_order_sites": ooo, "site_orders": orders}
     sch = SC.Schedule({item["seq"]: ("order", tuple(item["order"]))})
     r = SC.conformance_run(lambda: run_mapper(name), sch, n_jobs=n_jobs, step=item.get("step", 0.2),
                            retries=2, force="listed")
+    orders = {str(t["seq"]): t["order"] for t in r["real_trace"]
+              if t["seq"] is not None and t["return_as"] == "generator_unordered" and t["n"] >= 2}
     return {"real": r["real"], "virtual": r["virtual"], "achieved": bool(r["achieved"]),
-            "same_sites": r["same_sites"], "attempts": r["attempts"], "step": r["step"]}
+            "same_sites": r["same_sites"], "attempts": r["attempts"], "step": r["step"], "site_orders": orders}
 
 
 REAL_FORCED_N_JOBS = SCHED_N_JOBS  # the call-site numbering was recorded for this worker count
@@ -310,7 +321,8 @@ def real_items(names, quick):
         seq, n = max(sites, key=lambda s: (s[1], -s[0]))
         for nm, order in forced_orders(n, REAL_FORCED_N_JOBS, 2 if quick else 3):
             items.append({"spec": name, "kind": "forced", "n_jobs": REAL_FORCED_N_JOBS, "seq": seq, "site_n": n,
-                          "order_name": nm, "order": order, "step": 0.2})
+                          "site_label": _LABELS.get(name, {}).get(seq), "order_name": nm, "order": order,
+                          "step": 0.2})
     items.sort(key=lambda it: it["n_jobs"])  # the loky executor only grows: 2, 4, 16
     return items
 
@@ -359,35 +371,50 @@ def tree_for(names, quick):
     return tree, menus
 
 
-def family_of(name, cfg):
-    k = cfg[0]
-    if k == "site":
-        dim = f"schedule/site{cfg[1]}"
-    elif k == "joint":
-        dim = f"schedule/joint-{cfg[1]}"
-    else:
-        dim = {"njobs": "n_jobs", "isolated": "mode-isolated", "hashseed": "hashseed", "cache": "cache"}[k]
-    return f"{name}|{dim}"
+def diff_kind(got, base):
+    """exception | objectives (the sets of objective vectors differ) | tie-structure (same
+    objective vectors, another LoopTree for some of them)."""
+    if isinstance(got, str) or isinstance(base, str):
+        return "exception"
+    return "tie-structure" if sorted(r[0] for r in got) == sorted(r[0] for r in base) else "objectives"
 
 
 def diff_note(got, base):
     if isinstance(got, str) or isinstance(base, str):
-        return "exception vs result"
+        return f"exception vs result: {got if isinstance(got, str) else base}"[:300]
     g, b = [json.dumps(x) for x in got], [json.dumps(x) for x in base]
     extra = [x for x in g if x not in b][:2]
     missing = [x for x in b if x not in g][:2]
     return f"{len(got)} rows vs {len(base)} baseline rows; only in this run: {extra}; only in baseline: {missing}"
 
 
+def attribute(name, n_jobs, orders, observed):
+    """Which single call site, perturbed alone with its order from `orders` ({seq: order}),
+    reproduces `observed`?  -> (label, seq, order) or None.  Only run for violations."""
+    for seq, order in sorted(orders.items()):
+        order = list(order)
+        if order == sorted(order):
+            continue
+        sch = SC.Schedule({seq: ("order", tuple(order))})
+        try:
+            out = run_virtual(name, n_jobs, sch)
+        except SC.ScheduleError:
+            continue
+        if out == observed:
+            rec = [r for r in sch.trace if r.seq == seq]
+            return (rec[0].label if rec else None), seq, order
+    return None
+
+
 def evaluate(name, cfg):
-    """Run one configuration -> (list of observed canonical results, nontrivial, info)."""
+    """Run one configuration -> (observed canonical results, nontrivial, info, schedule)."""
     k = cfg[0]
     info = {}
     if k == "njobs":
         sch = SC.Schedule()
         obs = [run_virtual(name, cfg[1], sch)]
         info["sites"] = len(sch.trace)
-        return obs, cfg[1] > 1, info
+        return obs, cfg[1] > 1, info, sch
     if k in ("site", "joint", "isolated"):
         if k == "site":
             sch = SC.Schedule({cfg[1]: tuple(cfg[3])})
@@ -397,15 +424,16 @@ def evaluate(name, cfg):
             sch = SC.Schedule(default=None if cfg[1] == "default" else cfg[1], mode="isolated")
         obs = [run_virtual(name, SCHED_N_JOBS, sch)]
         info["deviations_taken"] = sch.deviations()
-        info["menu_sites"] = menu_sites(sch)
         if k == "site":
-            seen = dict(menu_sites(sch))
-            info["site_n_seen"] = seen.get(cfg[1])
-        return obs, (k == "isolated") or sch.deviations() > 0, info
+            rec = [r for r in sch.trace if r.seq == cfg[1]]
+            info["site_label"] = rec[0].label if rec else None
+            info["site_n_seen"] = rec[0].n if rec else None
+            info["delivery_order"] = rec[0].order if rec else None
+        return obs, (k == "isolated") or sch.deviations() > 0, info, sch
     if k == "hashseed":
         r = run_child({"kind": "serial", "spec": name, "runs": [{}]}, hashseed=cfg[1], tag="hs")
         info["child_hashseed"] = r["hashseed"]
-        return r["results"], cfg[1] != 0, info
+        return r["results"], cfg[1] != 0, info, None
     if k == "cache":
         cdir = tempfile.mkdtemp(prefix="cache-", dir=os.getcwd())
         try:
@@ -414,8 +442,26 @@ def evaluate(name, cfg):
         finally:
             shutil.rmtree(cdir, ignore_errors=True)
         info["make_pmappings_ran"] = a["made"] + b["made"]  # expected [True, False, False, False]
-        return a["results"] + b["results"], not all(info["make_pmappings_ran"][1:]), info
+        return a["results"] + b["results"], not all(info["make_pmappings_ran"][1:]), info, None
     raise ValueError(cfg)
+
+
+def family_of(name, cfg, info, sch, observed, base):
+    """Names the varied dimension; schedule violations are named after the CALL SITE (the job
+    function of the perturbed Parallel call) and the kind of difference, not after the spec,
+    so that the same defect seen on several specs / through a joint order is one family."""
+    k, kind = cfg[0], diff_kind(observed, base)
+    if k == "site":
+        return f"schedule/{info.get('site_label')}/{kind}", None
+    if k in ("joint", "isolated"):
+        orders = {r.seq: r.order for r in sch.trace if not r.nested and r.has_menu}
+        hit = attribute(name, SCHED_N_JOBS, orders, observed)
+        if hit is not None:
+            return f"schedule/{hit[0]}/{kind}", {"attributed_to_site": hit[1], "site_order": hit[2]}
+        if k == "joint":
+            return f"schedule/joint-{cfg[1]}/{kind}", None
+        return f"mode-isolated/{kind}", None
+    return {"njobs": "n_jobs", "hashseed": "hashseed", "cache": "cache"}[k] + f"/{kind}", None
 
 
 def body(cfg):
@@ -423,7 +469,7 @@ def body(cfg):
     base = _BASE[name]
     sample = {"spec": name, "config": _j(c)}
     try:
-        obs, nontrivial, info = evaluate(name, c)
+        obs, nontrivial, info, sch = evaluate(name, c)
     except SC.ScheduleError as e:
         # the recorded site no longer has the recorded shape under this schedule: nothing to compare
         sample["schedule_error"] = str(e)[:200]
@@ -433,8 +479,11 @@ def body(cfg):
     bad = [o for o in obs if o != base]
     viol = None
     if bad:
-        viol = {"observed": bad[0], "expected": base, "family": family_of(name, c),
-                "note": f"canonical front differs from the serial baseline ({diff_note(bad[0], base)})"
+        fam, extra = family_of(name, c, info, sch, bad[0], base)
+        if extra:
+            sample.update(extra)
+        viol = {"observed": bad[0], "expected": base, "family": fam,
+                "note": f"{name}: canonical front differs from the serial baseline ({diff_note(bad[0], base)})"
                         + (f"; run {obs.index(bad[0])} of cold/warm/warm/warm-2nd-process" if c[0] == "cache" else ""),
                 "config": sample}
     return Result(outcome=(name, json.dumps(obs[-1])), nontrivial=nontrivial, validated=False, violation=viol,
@@ -449,17 +498,26 @@ def real_body(cfg):
     r = _REAL.get(key)
     if r is None:  # replay / fallback: run here
         r = run_real_item(item)
-    sample = {"spec": name, "config": ["real", item], **{k: v for k, v in r.items() if k not in ("real", "virtual")}}
+    sample = {"spec": name, "config": ["real", item],
+              **{k: v for k, v in r.items() if k not in ("real", "virtual", "site_orders")}}
     viol = None
     forced = item["kind"] == "forced"
     ok = (not forced) or (r["achieved"] and r["same_sites"])
-    fam = f"{name}|real-loky/" + ("free" if not forced else f"forced-site{item['seq']}")
     if r["real"] != base:
+        kind = diff_kind(r["real"], base)
+        orders = {int(s): o for s, o in (r.get("site_orders") or {}).items()}
+        hit = attribute(name, item["n_jobs"], orders, r["real"]) if orders else None
+        if hit is not None:  # the virtual scheduler reproduces it from the recorded completion order of one site
+            fam = f"schedule/{hit[0]}/{kind}"
+            sample.update({"attributed_to_site": hit[1], "site_order": hit[2]})
+        else:
+            fam = "real-loky/" + ("free" if not forced else "forced") + f"/{kind}"
         viol = {"observed": r["real"], "expected": base, "family": fam, "config": sample,
-                "note": f"real joblib/loky run differs from the serial baseline ({diff_note(r['real'], base)})"}
+                "note": f"{name}: real joblib/loky run differs from the serial baseline ({diff_note(r['real'], base)})"}
     elif forced and r["virtual"] != base:
-        viol = {"observed": r["virtual"], "expected": base, "family": f"{name}|schedule/site{item['seq']}",
-                "config": sample, "note": "virtual run of a conformance schedule differs from the baseline"}
+        viol = {"observed": r["virtual"], "expected": base,
+                "family": f"schedule/{item.get('site_label')}/{diff_kind(r['virtual'], base)}",
+                "config": sample, "note": f"{name}: virtual run of a conformance schedule differs from the baseline"}
     return Result(outcome=(name, json.dumps(r["real"])), nontrivial=ok, validated=ok, violation=viol, sample=sample,
                   evaluations=2 if forced else 1,
                   outcome_class=f"{name}|real-{item['kind']}|" + ("ok" if ok else "order-not-achieved")
@@ -481,7 +539,7 @@ def _prep(item):
         return run_mapper(name)
     sch = SC.Schedule()
     out = run_virtual(name, SCHED_N_JOBS, sch)
-    return out, menu_sites(sch), [(r.seq, r.n, r.return_as, r.nested) for r in sch.trace]
+    return out, menu_sites(sch), [(r.seq, r.n, r.return_as, r.nested, r.label) for r in sch.trace]
 
 
 def _worker_init():
@@ -490,6 +548,18 @@ def _worker_init():
 
 
 def run(ctx):
+    saved = (tempfile.tempdir, os.environ.get("TMPDIR"))
+    try:
+        _run(ctx)
+    finally:  # the scratch directory (and with it our TMPDIR) disappears after run()
+        tempfile.tempdir = saved[0]
+        if saved[1] is None:
+            os.environ.pop("TMPDIR", None)
+        else:
+            os.environ["TMPDIR"] = saved[1]
+
+
+def _run(ctx):
     q = ctx.quick
     tier = "quick" if q else "thorough"
     names = [n for n, d in SPECS.items() if tier in d["tiers"]]
@@ -512,7 +582,9 @@ def run(ctx):
             _BASE[n] = r
         else:
             _SITES[n] = r[1]
+            _LABELS[n] = {t[0]: t[4] for t in r[2] if t[0] is not None}
             ctx.extra_cov.setdefault("call_sites", {})[n] = {"jobs_per_menu_site": [s[1] for s in r[1]],
+                                                             "labels": [t[4] for t in r[2] if t[0] is not None],
                                                              "all_sites": len(r[2]),
                                                              "nested_sites": sum(1 for s in r[2] if s[3])}
     for n in names:
@@ -584,4 +656,8 @@ def replay(ctx, rec):
         cfg = tuple(tuple(x) if isinstance(x, list) else x for x in cfg)
         r = body((name, cfg))
     v = r.violation
-    return {"observed": v and v["observed"], "expected": _BASE[name], "violation": bool(v)}
+    out = {"observed": v and v["observed"], "expected": _BASE[name], "violation": bool(v)}
+    if os.environ.get("C20_DEBUG"):
+        with open(os.environ["C20_DEBUG"], "a") as fh:
+            fh.write(json.dumps({"cfg": _j(cfg), "out": out, "sample": r.sample}, default=repr) + "\n")
+    return out
